@@ -1,3 +1,4 @@
+pub mod bytes;
 pub mod client;
 pub mod listener;
 pub mod server;
@@ -12,6 +13,7 @@ pub enum Scenario {
     Client(client::ClientScn),
     Server(server::ServerScn),
     Listener(listener::ListenerScn),
+    Bytes(bytes::BytesScn),
 }
 
 impl Scenario {
@@ -21,6 +23,7 @@ impl Scenario {
             Scenario::Client(c) => c.valid(),
             Scenario::Server(c) => c.valid(),
             Scenario::Listener(c) => c.valid(),
+            Scenario::Bytes(c) => c.valid(),
         }
     }
 }
@@ -30,6 +33,7 @@ pub fn run_scenario(s: &Scenario, tape: Tape) -> RunOutput {
         Scenario::Client(c) => client::run(c, tape, true),
         Scenario::Server(c) => server::run(c, tape, true),
         Scenario::Listener(c) => listener::run(c, tape),
+        Scenario::Bytes(c) => bytes::run(c, tape),
     }
 }
 
@@ -67,6 +71,13 @@ sgen!(g_server_dups, Dups);
 sgen!(g_server_shutdown, Shutdown);
 sgen!(g_server_extreme, Extreme);
 sgen!(g_server_independent, Independent);
+
+fn g_bytes_roundtrip(r: &mut Rng) -> Scenario {
+    Scenario::Bytes(bytes::gen_roundtrip(r))
+}
+fn g_bytes_adversary(r: &mut Rng) -> Scenario {
+    Scenario::Bytes(bytes::gen_adversary(r))
+}
 
 fn g_listener(r: &mut Rng) -> Scenario {
     Scenario::Listener(listener::gen(r))
@@ -194,8 +205,15 @@ pub fn checks() -> Vec<CheckSpec> {
             q, t,
             "contract monitor on every sink operation; capacities {1,2,3,inf}, coupled and independent readiness, stalls; client dispatch, server channel and throttler",
             BOTH_REAL, BOTH_STUB, &[]),
+        spec("C15", "exploration",
+            vec![gen("bytes.roundtrip", 1, g_bytes_roundtrip)],
+            q, t,
+            "sequences of 0-12 protocol messages (all variants, boundary ids, trace ids 0/1/max, empty/unicode/64 KiB bodies, every io::ErrorKind) through serde_transport with JSON and bincode over a SimPipe that fragments reads and writes, returns Pending, limits capacity and adds latency, and through the in-memory bounded/unbounded channels; writer dropped or closed; hand-built JSON frames omitting optional fields",
+            &["tarpc::serde_transport::Transport + tokio_serde Json/Bincode + LengthDelimitedCodec (real)", "tarpc::transport::channel::{unbounded,bounded} (real)", "wire types, util::serde error-kind table, trace u128 encoding, context deadline (de)serialisation (real)"],
+            &["byte stream: SimPipe (partial reads/writes, Pending, capacity, latency decided by the tape)", "writer and reader tasks: simulator"],
+            &["split positions are sampled by the tape (byte-by-byte reads are one of the configurations), not enumerated"]),
         spec("C16", "exploration",
-            vec![gen("client.extreme", 1, g_client_extreme), gen("server.extreme", 1, g_server_extreme)],
+            vec![gen("client.extreme", 2, g_client_extreme), gen("server.extreme", 2, g_server_extreme), gen("bytes.adversary", 3, g_bytes_adversary)],
             200_000, 4_000_000,
             "boundary-valued deadlines (0, 2^36 ms +-1, 100 and 8000 years, u64::MAX s, max nanos) from callers and peers, with no subscriber / fmt subscriber / OpenTelemetry SDK layer",
             BOTH_REAL, BOTH_STUB, &[]),
